@@ -39,22 +39,33 @@ fn filter_case(sink: &mut Sink, idx: u64, kind: &str, prog: &Prog, f: &HFilter, 
     let sent = run_sender(prog, &sites);
     let wire = through_json(&sent.events);
     let tunnel = run_receiver(&wire.events, Some(f), mode);
-    let tunnel = pick_tunnel_run(sink, tunnel, run_receiver_stale(&wire.events, Some(f), mode));
+    let (tunnel, tunnel_stale) = pick_tunnel_run(sink, tunnel, run_receiver_stale(&wire.events, Some(f), mode));
     let snap_n = snap_native(prog, &sites, Some(f));
     let snap_t = snap_tunnel(&wire.events, Some(f));
     let snap_eq = snap_n == snap_t;
+    // the host whose filter sits inside the capture layer: equal forests also when the filter disables something
+    let layer_eq = snap_native_layer(prog, &sites, Some(f)) == snap_tunnel_layer(&wire.events, Some(f));
+    sink.bump(if layer_eq { "layer-filter-host:equal" } else { "layer-filter-host:DIFFERENT" });
 
     intern_begin();
     let (unfiltered_log, _) = cscalls(&unfiltered.calls, &sites);
     let (native_log, _) = cscalls(&native.calls, &sites);
-    let (tunnel_log, clones) = chcalls(&tunnel.calls);
-    let term = format!(
-        "judge_c13 {} {} (mk_fobs {unfiltered_log} {native_log} {tunnel_log} {} {})",
-        f.coq(),
-        cprog(prog),
-        cbool(tunnel.accepted && wire.lossless),
-        cbool(snap_eq),
-    );
+    let (_, clones) = chcalls(&tunnel.calls);
+    let term_of = |t: &TunnelRun| {
+        format!(
+            "judge_c13 {} {} (mk_fobs {unfiltered_log} {native_log} {} {} {} {})",
+            f.coq(),
+            cprog(prog),
+            chcalls(&t.calls).0,
+            cbool(t.accepted && wire.lossless),
+            cbool(snap_eq),
+            cbool(layer_eq),
+        )
+    };
+    let term = match &tunnel_stale {
+        Some(stale) => format!("vworst ({}) ({})", term_of(&tunnel), term_of(stale)),
+        None => term_of(&tunnel),
+    };
     let judge = intern_wrap(&term);
 
     bump_prog(sink, prog);
